@@ -307,6 +307,8 @@ def _un(f, a, inplace=None, dtype=None):
 
 
 def _write(target: SymTensor, new: np.ndarray):
+    if not isinstance(target, SymTensor):
+        raise EngineUnsupported("in-place write of symbolic values into a real tensor")
     if new.shape != target._p.shape:
         new = np.broadcast_to(new, target._p.shape)
     if not target._p.flags.writeable:
@@ -1117,17 +1119,26 @@ def h_repeat(a, *sizes):
     return SymTensor(np.tile(payload(a), _sizes(sizes)), a.dtype)
 
 
+def _int_index(index):
+    """an index tensor as a numpy integer array (constant symbolic tensors included)"""
+    if isinstance(index, SymTensor):
+        flat = [el.value_term(x) for x in index._p.reshape(-1)]
+        if any(t.op != "const" for t in flat):
+            raise EngineUnsupported("symbolic index tensor")
+        return np.array([int(t.val) for t in flat], dtype=np.int64).reshape(index._p.shape)
+    with _NoTF():
+        return index.numpy()
+
+
 @handler("index_select")
 def h_index_select(a, dim, index):
-    with _NoTF():
-        idx = index.numpy()
+    idx = _int_index(index)
     return SymTensor(np.take(payload(a), idx, axis=dim), a.dtype)
 
 
 @handler("gather")
 def h_gather(a, dim, index):
-    with _NoTF():
-        idx = index.numpy()
+    idx = _int_index(index)
     return SymTensor(np.take_along_axis(payload(a), idx, axis=dim), a.dtype)
 
 
@@ -1525,4 +1536,5 @@ def install_methods():
 # ---- autograd entry points are registered by autograd.py -------------------------------------------------
 
 from . import autograd as _ag  # noqa: E402,F401  (registers handlers)
+from . import tensor_ext as _ext  # noqa: E402,F401  (registers further handlers)
 install_methods()
